@@ -138,8 +138,8 @@ theorem an_loop_idem (relOf : Nat → List Mutex) (a : Cmd) (L : LS) :
 
 /-! ### what a run keeps -/
 
-def RelOk (env : List Cmd) (relOf : Nat → List Mutex) : Prop :=
-  ∀ f body, env[f]? = some body → ∀ m, m ∈ relSet relOf body → m ∈ relOf f
+def RelOk (env : Nat → Option Cmd) (relOf : Nat → List Mutex) : Prop :=
+  ∀ f body, env f = some body → ∀ m, m ∈ relSet relOf body → m ∈ relOf f
 
 theorem dfrs_sub_relSet (relOf : Nat → List Mutex) (c : Cmd) : ∀ m, m ∈ dfrs c → m ∈ relSet relOf c := by
   induction c with
@@ -156,7 +156,7 @@ theorem dfrs_sub_relSet (relOf : Nat → List Mutex) (c : Cmd) : ∀ m, m ∈ df
   | block a iha => intro x hx; simp only [dfrs, relSet] at hx ⊢; exact iha x hx
   | _ => intro x hx; simp [dfrs] at hx
 
-theorem run_keeps {env : List Cmd} {relOf : Nat → List Mutex} (hrel : RelOk env relOf)
+theorem run_keeps {env : Nat → Option Cmd} {relOf : Nat → List Mutex} (hrel : RelOk env relOf)
     {c : Cmd} {h h' : LS} {obs : List (Nat × LS)} {t : Out} (hrun : Run env c h obs h' t) :
     ∀ x, x ∈ h → x.m ∉ relSet relOf c → x ∈ h' := by
   induction hrun with
@@ -212,15 +212,15 @@ theorem run_keeps {env : List Cmd} {relOf : Nat → List Mutex} (hrel : RelOk en
 def CallsOk (entry : Nat → LS) (calls : List (Nat × LS)) : Prop :=
   ∀ f Ls, (f, Ls) ∈ calls → Sub (entry f) Ls
 
-def EntryOk (env : List Cmd) (relOf : Nat → List Mutex) (entry : Nat → LS) : Prop :=
-  ∀ g body, env[g]? = some body → CallsOk entry (an relOf body (entry g)).calls
+def EntryOk (env : Nat → Option Cmd) (relOf : Nat → List Mutex) (entry : Nat → LS) : Prop :=
+  ∀ g body, env g = some body → CallsOk entry (an relOf body (entry g)).calls
 
 /-- `(k, L)` is a row of the analysis of some function body from its entry lockset -/
-def InAll (env : List Cmd) (relOf : Nat → List Mutex) (entry : Nat → LS) (k : Nat) (L : LS) : Prop :=
-  ∃ g body, env[g]? = some body ∧ (k, L) ∈ (an relOf body (entry g)).rows
+def InAll (env : Nat → Option Cmd) (relOf : Nat → List Mutex) (entry : Nat → LS) (k : Nat) (L : LS) : Prop :=
+  ∃ g body, env g = some body ∧ (k, L) ∈ (an relOf body (entry g)).rows
 
 /-- the access `k` performed with `hk` held is covered by a row whose lockset is held -/
-def Just (env : List Cmd) (relOf : Nat → List Mutex) (entry : Nat → LS) (rows : List (Nat × LS)) (k : Nat) (hk : LS) : Prop :=
+def Just (env : Nat → Option Cmd) (relOf : Nat → List Mutex) (entry : Nat → LS) (rows : List (Nat × LS)) (k : Nat) (hk : LS) : Prop :=
   ∃ L, ((k, L) ∈ rows ∨ InAll env relOf entry k L) ∧ Sub L hk
 
 def OutOk (t : Out) (r : Res) (h' : LS) : Prop :=
@@ -242,7 +242,7 @@ theorem callsOk_right {entry : Nat → LS} {a b : List (Nat × LS)} (h : CallsOk
 /-- **Soundness of the analysis.**  On every run of `c` that starts with at least the locks `L` held, every access
     is covered by a row of the analysis (of `c`, or of the body of a function called on the way) whose lockset is
     really held at that moment, and the resulting lockset under-approximates the locks held afterwards. -/
-theorem an_sound {env : List Cmd} {relOf : Nat → List Mutex} {entry : Nat → LS}
+theorem an_sound {env : Nat → Option Cmd} {relOf : Nat → List Mutex} {entry : Nat → LS}
     (hrel : RelOk env relOf) (hent : EntryOk env relOf entry)
     {c : Cmd} {h h' : LS} {obs : List (Nat × LS)} {t : Out} (hrun : Run env c h obs h' t) :
     ∀ L, Sub L h → CallsOk entry (an relOf c L).calls →
@@ -419,43 +419,53 @@ theorem an_sound {env : List Cmd} {relOf : Nat → List Mutex} {entry : Nat → 
 
 /-! ### the evaluated conditions imply the hypotheses -/
 
-theorem relOk_of_B {env : List Cmd} {rel : List (List Mutex)} (h : relOkB env rel = true) : RelOk env (getL rel) := by
+theorem envOf_mem {fs : List (Nat × Cmd)} {f : Nat} {body : Cmd} (h : envOf fs f = some body) : (f, body) ∈ fs := by
+  unfold envOf at h
+  cases hf : fs.find? (fun p => p.1 == f) with
+  | none => rw [hf] at h; cases h
+  | some p =>
+    rw [hf] at h
+    have hp := List.find?_some hf
+    have hm := List.mem_of_find?_eq_some hf
+    have e1 : p.1 = f := by simpa using hp
+    have e2 : p.2 = body := by simpa using h
+    cases p
+    simp only at e1 e2
+    subst e1; subst e2
+    exact hm
+
+theorem relOk_of_B {fs : List (Nat × Cmd)} {rel : Trie (List Mutex)} (h : relOkB fs rel = true) : RelOk (envOf fs) (getL rel) := by
   intro f body hb m hm
   unfold relOkB at h
   rw [List.all_eq_true] at h
-  have hlt : f < env.length := (List.getElem?_eq_some_iff.1 hb).1
-  have := h f (List.mem_range.2 hlt)
-  rw [hb] at this
+  have := h (f, body) (envOf_mem hb)
   simp only [List.all_eq_true] at this
   exact List.contains_iff_mem.1 (this m hm)
 
-theorem entryOk_of_B {env : List Cmd} {rel : List (List Mutex)} {entry : List LS}
-    (h : entryOkB env rel entry = true) : EntryOk env (getL rel) (getLS entry) := by
+theorem entryOk_of_B {fs : List (Nat × Cmd)} {rel : Trie (List Mutex)} {entry : Trie LS}
+    (h : entryOkB fs rel entry = true) : EntryOk (envOf fs) (getL rel) (getLS entry) := by
   intro g body hb f Ls hm
   unfold entryOkB at h
   rw [List.all_eq_true] at h
-  have hlt : g < env.length := (List.getElem?_eq_some_iff.1 hb).1
-  have := h g (List.mem_range.2 hlt)
-  rw [hb] at this
+  have := h (g, body) (envOf_mem hb)
   simp only [List.all_eq_true] at this
   exact subB_iff.1 (this (f, Ls) hm)
 
-theorem inAll_allRows {env : List Cmd} {rel : List (List Mutex)} {entry : List LS} {k : Nat} {L : LS}
-    (h : InAll env (getL rel) (getLS entry) k L) : (k, L) ∈ allRows env rel entry := by
+theorem inAll_allRows {fs : List (Nat × Cmd)} {rel : Trie (List Mutex)} {entry : Trie LS} {k : Nat} {L : LS}
+    (h : InAll (envOf fs) (getL rel) (getLS entry) k L) : (k, L) ∈ allRows fs rel entry := by
   obtain ⟨g, body, hb, hm⟩ := h
   unfold allRows
   rw [List.mem_flatMap]
-  have hlt : g < env.length := (List.getElem?_eq_some_iff.1 hb).1
-  exact ⟨g, List.mem_range.2 hlt, by rw [hb]; exact hm⟩
+  exact ⟨(g, body), envOf_mem hb, hm⟩
 
 /-- **Whole-program soundness**: if the evaluated conditions hold, then on every run of every function body that
     starts with at least its entry lockset held, each access (in the body, in callees, in spawned closures) is
     covered by a row of `allRows` whose lockset is held at that moment. -/
-theorem prog_sound {env : List Cmd} {rel : List (List Mutex)} {entry : List LS}
-    (hrel : relOkB env rel = true) (hent : entryOkB env rel entry = true)
-    {g : Nat} {body : Cmd} (hb : env[g]? = some body) {h h' : LS} {obs : List (Nat × LS)} {t : Out}
-    (hs : Sub (getLS entry g) h) (hrun : Run env body h obs h' t) :
-    ∀ k hk, (k, hk) ∈ obs → ∃ L, (k, L) ∈ allRows env rel entry ∧ Sub L hk := by
+theorem prog_sound {fs : List (Nat × Cmd)} {rel : Trie (List Mutex)} {entry : Trie LS}
+    (hrel : relOkB fs rel = true) (hent : entryOkB fs rel entry = true)
+    {g : Nat} {body : Cmd} (hb : envOf fs g = some body) {h h' : LS} {obs : List (Nat × LS)} {t : Out}
+    (hs : Sub (getLS entry g) h) (hrun : Run (envOf fs) body h obs h' t) :
+    ∀ k hk, (k, hk) ∈ obs → ∃ L, (k, L) ∈ allRows fs rel entry ∧ Sub L hk := by
   intro k hk hm
   have hE := entryOk_of_B hent
   obtain ⟨hj, _⟩ := an_sound (relOk_of_B hrel) hE hrun (getLS entry g) hs (hE g body hb)
@@ -481,5 +491,42 @@ theorem justified_held {rows : List (Nat × LS)} {tokens : List Mutex} {a : Acce
     have := hall (a.site, L) hrow
     have hsb : subB (realLocks tokens a) L = true := by simpa using this
     exact Sub.trans (subB_iff.1 hsb) hs
+
+theorem checkAll_entry {fs : List (Nat × Cmd)} {rel : Trie (List Mutex)} {entry t : Trie LS}
+    (h : checkAllB fs rel entry t = true) : entryOkB fs rel entry = true := by
+  unfold checkAllB at h
+  unfold entryOkB
+  rw [List.all_eq_true] at h ⊢
+  intro p hp
+  have := h p hp
+  simp only [Bool.and_eq_true] at this
+  exact this.1
+
+theorem checkAll_rows {fs : List (Nat × Cmd)} {rel : Trie (List Mutex)} {entry t : Trie LS}
+    (h : checkAllB fs rel entry t = true) : rowsIndexedB (allRows fs rel entry) t = true := by
+  unfold checkAllB at h
+  unfold rowsIndexedB allRows
+  rw [List.all_eq_true] at h ⊢
+  intro r hr
+  obtain ⟨p, hp, hrp⟩ := List.mem_flatMap.1 hr
+  have := h p hp
+  simp only [Bool.and_eq_true, List.all_eq_true] at this
+  exact this.2 r hrp
+
+/-- justification through the indexed rows -/
+theorem justT_held {rows : List (Nat × LS)} {t : Trie LS} {tokens : List Mutex} {a : Access}
+    (hidx : rowsIndexedB rows t = true) (hj : justT t tokens a = true) {L hk : LS}
+    (hrow : (a.site, L) ∈ rows) (hs : Sub L hk) : Sub (realLocks tokens a) hk := by
+  unfold justT at hj
+  rw [Bool.or_eq_true] at hj
+  rcases hj with he | hrest
+  · intro x hx
+    have : realLocks tokens a = [] := by simpa using he
+    rw [this] at hx; cases hx
+  · unfold rowsIndexedB at hidx
+    rw [List.all_eq_true] at hidx
+    have hget : t.get a.site = some L := by simpa using hidx (a.site, L) hrow
+    rw [hget] at hrest
+    exact Sub.trans (subB_iff.1 hrest) hs
 
 end KV.LockProg
